@@ -41,6 +41,8 @@ ALLOWED_CONTENT_END = {
     ("iodata.formats.extxyz.load_many", "line.strip() == ''"): "an extended-XYZ frame starts with the atom count; a blank line cannot start a frame",
 }
 MATERIALIZERS = {"list", "tuple", "sorted", "len", "reversed", "set", "frozenset", "sum", "max", "min", "dict"}
+EXPLANATION += ' (R10) in the PDB frame parser only END / ENDMDL switch off the missing-END warning (the path condition of the flag assignment is evaluated for every PDB record name).'
+TECHNIQUE += '; finite-domain evaluation of the terminator flag'
 
 
 def run(ctx):
@@ -316,6 +318,8 @@ def run(ctx):
                 ctx.violate("R9", f"{short}.load_many yields frames from `zip(...)` over {len(inner.args)} arrays without measuring the zipped sequence (zip stops at the shortest array: missing steps are dropped silently)", g, inner)
     ctx.floor("R9", nzip, 1, "zip-driven frame loops")
     check_terminator_flag(ctx)
+    ctx.rule("R11", "the look-ahead of a frame loop leaves the input unchanged (evaluated on a model LineIterator)", "lines put back in the wrong order, not at all or twice: the frame parser reads the count where the title is, a legal frame is rejected or mis-read")
+    check_lookahead_transparency(ctx, "R11")
 
     # dump side of R6
     ndm = 0
@@ -454,3 +458,79 @@ def check_terminator_flag(ctx):
         ctx.violate("R10", f"pdb.load_one sets `{flag}` on {recs} records: a frame that ends after such a record (file cut before END / ENDMDL) is returned without the missing-END warning", f, bad[0][1])
     else:
         ctx.ok("R10", f"pdb.load_one: `{flag}` is set only for END / ENDMDL among {len(PDB_RECORDS)} record names; every other end of input gives the warning", f"{f.module.relpath}:{sets[0].lineno}")
+
+
+# formats in which the first line of a frame may legally be blank (an empty title): blank lines met while looking for
+# the next frame belong to that frame and must all be put back
+BLANK_FIRST_LINE = {"sdf": "the title line of a molfile may be empty", "gromacs": "the title line of a gro frame may be empty"}
+
+
+def check_lookahead_transparency(ctx, rid):
+    """The look-ahead of a frame loop leaves the input as it found it.
+
+    Each generator `load_many` is evaluated, up to its first `yield`, on a model `LineIterator` (the repository's own
+    class, evaluated too) fed with a few constant line sequences.  When the frame parser is reached, the lines it will
+    see -- the pushed-back stack, last in first out, followed by the rest of the input -- must be the input itself, in
+    order, less at most the leading blank lines, and the line counter must agree with what was consumed."""
+    from ..accessors import AccessorEval, Raised, Rec, Yielded
+    from ..symarr import NotSymbolic
+
+    prog = ctx.prog
+    licls = prog.cls("iodata.utils.LineIterator")
+    feeds = {
+        "a frame": ["T\n", "2\n", "a\n", "b\n", "T2\n"],
+        "blank lines, then a frame": ["\n", "  \n", "T\n", "2\n", "a\n"],
+        "one blank line, then a frame": ["\n", "T\n", "2\n"],
+        "empty input": [],
+        "blank lines only": ["\n", " \n"],
+    }
+    n = 0
+    for short, m in prog.format_modules().items():
+        lm = prog.funcs.get(f"{m.name}.load_many")
+        if lm is None or not lm.is_generator:
+            continue
+        # frame loops over concatenated one-frame files: the generator yields what the module's load_one returns
+        lo1 = prog.funcs.get(f"{m.name}.load_one")
+        if lo1 is None or not any(isinstance(x, ast.Yield) and isinstance(x.value, ast.Call) and any(cs.node is x.value and lo1 in cs.callees for cs in lm.calls) for x in lm.own_nodes()):
+            continue
+        n += 1
+        bad = None
+        for label, feed in feeds.items():
+            lit = Rec(licls, filename="FILE", fh=iter(list(feed)), lineno=0, stack=[])
+            ev = AccessorEval(prog, licls, limit=2000)
+            args = [lit] + [None] * (len(lm.posparams) - 1)
+            outcome = None
+            try:
+                ev.run_free(lm, args, {})
+                outcome = "return"
+            except Yielded:
+                outcome = "yield"
+            except Raised as exc:
+                outcome = f"raises {exc.args[0]}"
+            except NotSymbolic as exc:
+                raise AnalysisError(f"{lm.qualname}: the look-ahead is outside the evaluation whitelist: {exc}") from exc
+            if outcome.startswith("raises"):
+                bad = f"{label}: the look-ahead {outcome} instead of yielding a frame or ending the sequence"
+                break
+            if outcome == "return":
+                if any(ln.strip() for ln in feed):
+                    if short in BLANK_FIRST_LINE or feed[0].strip():
+                        bad = f"{label}: the sequence ends although a frame follows"
+                        break
+                continue
+            stream = list(reversed(lit.fields["stack"])) + list(lit.fields["fh"])
+            k = len(feed) - len(stream)
+            if k < 0 or stream != feed[k:] or any(ln.strip() for ln in feed[:k]):
+                bad = f"{label}: the frame parser will read {stream!r}, the input was {feed!r} (lines are lost, duplicated or out of order after the look-ahead)"
+                break
+            if lit.fields["lineno"] != k:
+                bad = f"{label}: {k} line(s) consumed by the look-ahead, but the line counter says {lit.fields['lineno']}"
+                break
+            if k and short in BLANK_FIRST_LINE:
+                bad = f"{label}: {k} blank line(s) are dropped before the frame, but {BLANK_FIRST_LINE[short]}"
+                break
+        if bad:
+            ctx.violate(rid, f"{short}.load_many, {bad}", lm, lm.node, construct=f"{short}.load_many look-ahead: {bad}"[:180])
+        else:
+            ctx.ok(rid, f"{short}.load_many: on {len(feeds)} inputs the frame parser sees the input unchanged after the look-ahead (or the sequence ends at end of input)", f"{lm.module.relpath}:{lm.lineno}")
+    ctx.floor(rid, n, 6, "generator load_many functions")
